@@ -41,6 +41,9 @@ def correspondence(ctx: core.Ctx) -> None:
     pairs = gen_pairs(ctx, n)
     for k in range(0, len(pairs), 2000):
         vc_engine.run_pairs(ctx, pairs[k:k + 2000], "gen", WHICH)
+    fam = V.gen_family_pairs(ctx.rng, ctx.budget(1200, 30000))
+    for k in range(0, len(fam), 2000):
+        vc_engine.run_pairs(ctx, fam[k:k + 2000], "release-family", WHICH)
     if ctx.thorough:
         clauses = sorted({V.gen_clause(ctx.rng) for _ in range(3000)})[:150]
         allp = [(a, b) for a in clauses for b in clauses]
@@ -54,7 +57,7 @@ def search(ctx: core.Ctx) -> None:
     if pairs:
         vc_engine.run_pairs(ctx, pairs, "search-disagreeing", WHICH)
     if not ctx.violations:
-        pairs = gen_pairs(ctx, 12000)
+        pairs = gen_pairs(ctx, 9000) + V.gen_family_pairs(ctx.rng, 9000)
         for k in range(0, len(pairs), 2000):
             vc_engine.run_pairs(ctx, pairs[k:k + 2000], "search-gen", WHICH)
             if ctx.violations:
